@@ -729,6 +729,76 @@ pub fn mar_degenerate_batch(rec: &mut Rec) {
     }
 }
 
+/// Verifier keys that serve NO bound (trimmed with `None` or with an empty list): a commitment made without a bound and
+/// presented with the label `Some(d)` - any d, below, at and above the polynomial's degree and the key's range - cannot be
+/// checked against that bound and must not be accepted, by `check` and by `batch_check`, with the committer's own
+/// verifier key and with the verifier key of a second trim of the same parameters.
+pub fn keys_without_bounds<S: RefOps + UniSch>(rec: &mut Rec) {
+    use ark_poly_commit::{Evaluations, QuerySet};
+    let r = rho_stream::<S::F>(rec.seed, 57, 8);
+    for (bn, breq) in [("None", None), ("empty", Some(Vec::<usize>::new()))] {
+        let cfg_nb = KeyCfg::uni(8, 6, 2, breq.clone());
+        let cfg_b = KeyCfg::uni(8, 6, 2, Some(vec![3, 5]));
+        let mut keys: Option<(Keys<S>, Keys<S>)> = None;
+        for deg in [2usize, 5, 6] {
+            for h in [None, Some(1usize), Some(2)] {
+                let id = format!("{}/keys-without-bounds/B={}/deg={}/h={:?}", S::NAME, bn, deg, h);
+                if !rec.take(&id) {
+                    continue;
+                }
+                if keys.is_none() {
+                    keys = match (build_keys::<S>(&cfg_nb, rec.seed), build_keys::<S>(&cfg_b, rec.seed)) {
+                        (Ok(a), Ok(b)) => Some((a, b)),
+                        _ => return,
+                    };
+                }
+                let (knb, kb) = keys.as_ref().unwrap();
+                rec.dim("scheme", S::NAME);
+                let p = uni_poly::<S>(&r[..=deg]);
+                let z = pt::<S>(rho::<S::F>(rec.seed, 4));
+                // committed and opened without a bound: once with the key that serves no bounds, once with the key that does
+                for (who, kk) in [("own-key", knb), ("key-with-bounds", kb)] {
+                    let c = match commit_set::<S>(kk, vec![lp::<S>("p", p.clone(), None, h)], rec.seed, 0) {
+                        Ok(c) => c,
+                        Err(_) => continue,
+                    };
+                    let s1 = match open_single::<S>(kk, &c, &[0], &z, 0, rec.seed, 0) {
+                        Ok(s) => s,
+                        Err(_) => continue,
+                    };
+                    rec.op(2);
+                    let base = check_single::<S>(knb, &[&c.comms[0]], &z, &s1.values, &s1.proof, 0, rec.seed, 0);
+                    rec.count_points(1);
+                    rec.class(if base.accepted() { "unbounded-baseline-accepted" } else { "unbounded-baseline-rejected" });
+                    for shown in [1usize, 3, 5, 6, 7, 9] {
+                        let lab = LabeledCommitment::new("p".to_string(), c.comms[0].commitment().clone(), Some(shown));
+                        let d = check_single::<S>(knb, &[&lab], &z, &s1.values, &s1.proof, 0, rec.seed, 0);
+                        rec.count_points(1);
+                        rec.op(1);
+                        rec.class(&format!("presented-{}", d.class()));
+                        rec.obs(&format!("{}|no-bounds|check|{}", S::NAME, d.class()));
+                        if d.accepted() {
+                            rec.violation(&format!("C04/{}/check/bound-label-under-key-without-bounds/accepted", S::NAME), &id, format!("a degree-{} polynomial committed without a bound ({}) is accepted under the label Some({}) by a verifier key trimmed with bounds = {}", deg, who, shown, bn));
+                        }
+                        let mut qs = QuerySet::new();
+                        qs.insert(("p".to_string(), ("z".to_string(), z.clone())));
+                        let mut ev = Evaluations::new();
+                        ev.insert(("p".to_string(), z.clone()), s1.values[0]);
+                        let bp: BPf<S> = vec![s1.proof.clone()].into();
+                        let d = check_batch::<S>(knb, &[&lab], &qs, &ev, &bp, 0, rec.seed, 0);
+                        rec.count_points(1);
+                        rec.op(1);
+                        rec.obs(&format!("{}|no-bounds|batch_check|{}", S::NAME, d.class()));
+                        if d.accepted() {
+                            rec.violation(&format!("C04/{}/batch_check/bound-label-under-key-without-bounds/accepted", S::NAME), &id, format!("a degree-{} polynomial committed without a bound ({}) is accepted under the label Some({}) by batch_check with a verifier key trimmed with bounds = {}", deg, who, shown, bn));
+                        }
+                    }
+                }
+            }
+        }
+    }
+}
+
 pub fn run(rec: &mut Rec) {
     let dmax = if rec.thorough() { 6 } else { 4 };
     admission::<SMar>(rec, dmax);
@@ -742,6 +812,8 @@ pub fn run(rec: &mut Rec) {
     mislabel_group::<SIpa>(rec);
     mislabel_cross_trim::<SMar>(rec);
     mar_degenerate_batch(rec);
+    keys_without_bounds::<SMar>(rec);
+    keys_without_bounds::<SSon>(rec);
     mislabel_cross_trim::<SSon>(rec);
     surgery::<SMar>(rec);
     surgery::<SSon>(rec);
